@@ -479,20 +479,27 @@ def stage(o, tier, seed):
             sch += [s for s in (concretise(r, c) for c in cases) if s]
     r.shuffle(sch)                      # neighbours in flight together are unrelated
     o.extra["vapirouter_cases_enumerated_by_tlc"] = len(cases)
-    vlib.conformance(o, FAMILY, TRACE, TCFG, PKG, sch, tag="vr", chunk=700, exec_timeout=900, tv_timeout=900, env={"VERIF_CONC": "8"})
-    tr = vlib.split_traces(vlib.read_ndjson(os.path.join(vlib.workdir(o.pid), "trace_vr.ndjson")))
+    # The known finding first: its three schedules are validated against the STRICT configuration (client faults are 4xx).  On the
+    # pinned tree they are rejected there and accepted as coded -> KNOWN-FINDING, and the batch is validated as coded; on a tree
+    # that carries the fix they are accepted -> the batch is validated against the strict configuration.
+    fs = [concretise(r, c) for c in finding_cases(cases)]
+    if len(fs) != 3:
+        raise vlib.Infra("the schedules of the known finding were not found among the cases")
+    nk = len(o.known)
+    vlib.conformance(o, FAMILY, TRACE, STRICT, PKG, fs, tag="vr_strict", dev_cfgs=[(FINDING, TCFG)])
+    cfg = TCFG
+    if len(o.known) == nk and not o.violations:
+        cfg = STRICT
+        o.notes.append("the known finding %s does not show on this tree: validated with Malformed = strict" % FINDING)
+    o.extra["vapirouter_trace_cfg"] = cfg
+    tr = []
     if not o.violations:
-        # the known finding: its schedules are rejected by the strict configuration and accepted as coded
-        fs = [concretise(r, c) for c in finding_cases(cases)]
-        if len(fs) != 3:
-            raise vlib.Infra("the schedules of the known finding were not found among the cases")
-        nk = len(o.known)
-        vlib.conformance(o, FAMILY, TRACE, STRICT, PKG, fs, tag="vr_strict", dev_cfgs=[(FINDING, TCFG)])
-        if len(o.known) == nk and not o.violations:
-            o.notes.append("the known finding %s did not show: client faults of submit endpoints are 4xx now" % FINDING)
+        vlib.conformance(o, FAMILY, TRACE, cfg, PKG, sch, tag="vr", chunk=700, exec_timeout=900, tv_timeout=900, env={"VERIF_CONC": "8"})
+        tr = vlib.split_traces(vlib.read_ndjson(os.path.join(vlib.workdir(o.pid), "trace_vr.ndjson")))
+    if not o.violations:
         ms = mutators()
         nself = len(o.selftests)
-        vlib.binding_selftest(o, FAMILY, TRACE, TCFG, tr, ms)
+        vlib.binding_selftest(o, FAMILY, TRACE, cfg, tr, ms)
         if len(o.selftests) - nself < len(ms):
             raise vlib.Infra("VapiRouter binding self-test: some negative control found no applicable trace")
     resp = [e for t in tr for e in t if e.get("ev") == "Resp"]
